@@ -57,7 +57,7 @@ def check(run):
         for s2 in [sig + b"\x00", sig[:-1] if sig else b"x", bytes(len(sig)), sig[::-1] if sig[::-1] != sig else sig + b"a", b""]:
             if s2 != sig:
                 rln(rlngen.verify_input(msg, s2)); roots(rlngen.verify_input(msg, s2), le(root, 32))
-        for d in [len(sig) + 1, max(len(sig) - 1, 0)]:
+        for d in [len(sig) + 1, max(len(sig) - 1, 0)] + [len(sig) + (1 << k) for k in (8, 16, 32, 40, 63)]:     # also lengths congruent to the true one modulo a narrower width
             if d != len(sig):
                 rln(rlngen.verify_input(msg, sig, d))
         # root sets containing / not containing / empty / zero entries / many entries
